@@ -123,7 +123,21 @@ impl Message {
                 let services = services.unwrap();
                 Ok(Message::Services(services))
             }
-            10 => Ok(Message::GhostChain(GhostChainSync::deserialize(buffer))),
+            10 => {
+                // start hash (32) + count (4) + count * (32 + 32 + 8 + 8 + 1 + 1)
+                if buffer.len() < 36
+                    || buffer.len() as u64
+                        != 36 + u32::from_be_bytes(buffer[32..36].try_into().unwrap()) as u64 * 82
+                {
+                    warn!(
+                        "buffer size : {:?} is not valid for type : {:?}",
+                        buffer.len(),
+                        message_type
+                    );
+                    return Err(Error::from(ErrorKind::InvalidData));
+                }
+                Ok(Message::GhostChain(GhostChainSync::deserialize(buffer)))
+            }
             11 => {
                 if buffer.len() != 72 {
                     warn!(
